@@ -145,7 +145,10 @@ Receive(src, b, n) ==
           [] br = "differentchain" /\ out = "switch" ->
                /\ tip' = [tip EXCEPT ![n] = b.id]
                /\ fin' = [fin EXCEPT ![n] = Max2(@, b.votes.mhpc)]
-               /\ UNCHANGED <<recv, banned>>
+               \* LIP-0014 / forkchoice.go ("if receivedAt is nil, the block comes from syncing"): a tip obtained by
+               \* synchronisation has no receive time and counts as received within its slot - no tie break against it
+               /\ recv' = [recv EXCEPT ![n] = FALSE]
+               /\ UNCHANGED banned
           [] br = "differentchain" /\ out = "ban" ->
                /\ banned' = [banned EXCEPT ![n] = @ \cup {src}]
                /\ UNCHANGED <<tip, fin, recv>>
